@@ -28,9 +28,17 @@ Section RelativeProofs.
   Variable view : msg -> rview T.
   Variable mk : rview T -> msg.
   Variable elig : dev -> bool.
+  Variable parent : dev -> option dev.
+  Variable coupled : dev -> bool.
+  Variable pseudos : dev -> list dev.
+  Variable comps : T -> list T.
   Hypothesis view_mk : forall v, view (mk v) = v.
+  (* the per-step theorem is for device sets without a coupled pseudo-positioner (coupled_parents empty: `devices` is
+     None or names no pseudo-positioner); parents of any other kind are allowed.  The reset theorems below have no
+     such restriction. *)
+  Hypothesis uncoupled : forall p, coupled p = false.
 
-  Notation decide := (rel_decide zero pos_of kind position view mk elig).
+  Notation decide := (rel_decide zero pos_of kind position view mk elig parent coupled pseudos comps).
   Notation ins := (ins_resume resume decide).
   Notation st_of x := (ins_store x Close).
 
@@ -49,7 +57,7 @@ Section RelativeProofs.
     match x with
     | IRun _ st _ (Some (m, upd)) =>
         exists d off g, view m = RSet d off g /\ elig d = true /\ ps_get d st = None /\ kind d <> KPosition /\
-                        upd = stash zero pos_of d
+                        upd = stash zero pos_of position parent coupled pseudos comps d
     | _ => True
     end.
 
@@ -59,6 +67,20 @@ Section RelativeProofs.
     induction st as [|[k w] r IH]; intros d d' v; cbn.
     - reflexivity.
     - destruct (Nat.eqb d k); [reflexivity|apply IH].
+  Qed.
+
+  Lemma ps_set_fresh : forall (st : @pstore T) d v, ps_get d st = None -> ps_set d v st = st ++ [(d, v)].
+  Proof.
+    induction st as [|[k w] r IH]; intros d v H; cbn in *; [reflexivity|].
+    destruct (Nat.eqb d k); [discriminate|]. now rewrite IH.
+  Qed.
+
+  Lemma record_fresh :
+    forall d v (st : @pstore T), ps_get d st = None ->
+      record position parent coupled pseudos comps d v st = st ++ [(d, v)].
+  Proof.
+    intros d v st H. unfold record. rewrite (uncoupled d).
+    destruct (parent d) as [p|]; [rewrite (uncoupled p); cbn [andb]|]; now apply ps_set_fresh.
   Qed.
 
   Lemma ps_get_app_same : forall (st : @pstore T) d v, ps_get d st = None -> ps_get d (st ++ [(d, v)]) = Some v.
@@ -91,7 +113,8 @@ Section RelativeProofs.
       + destruct (ps_get d st) as [p0|] eqn:Hg; cbn [negb] in H.
         * inversion H; subst. cbn. split; [exact I|]. split; [now left|].
           intros d0 off0 g0 Hv0 _. split; [reflexivity|]. left. rewrite Hv in Hv0. inversion Hv0; subst. congruence.
-        * destruct (kind d) eqn:Hk; inversion H; subst; cbn.
+        * rewrite (record_fresh d (position d) st Hg) in H.
+          destruct (kind d) eqn:Hk; inversion H; subst; cbn.
           -- split; [exists d, off, g; repeat split; auto; congruence|]. split; [now left|].
              intros d0 off0 g0 Hv0 _. rewrite view_mk in Hv0. discriminate.
           -- split; [exact I|]. split.
@@ -154,7 +177,7 @@ Section RelativeProofs.
       intros d off g Hv He. destruct (HS d off g Hv He) as [-> [Hk|Hc]]; [now left|right].
       unfold c24a_step, ins_step_exists. rewrite Hin. destruct i'; try congruence; now rewrite Hres.
     - cbn in HI. destruct HI as (d & off & g & Hv & He & Hg & Hk & ->).
-      unfold stash in HU. inversion HU; subst. cbn. split; [exact I|]. split.
+      unfold stash in HU. rewrite (record_fresh d _ st Hg) in HU. inversion HU; subst. cbn. split; [exact I|]. split.
       + eapply rec_new; eauto; right; (split; [exact Hk|now exists r]).
       + intros d0 off0 g0 Hv0 _. left. rewrite Hv in Hv0. inversion Hv0; subst. now rewrite ps_get_app_same.
   Qed.
@@ -208,13 +231,33 @@ Section RelativeProofs.
     - intros c Hv Hn. unfold rewrite_pos. rewrite Hv. destruct c; try reflexivity. exfalso. eapply Hn. reflexivity.
   Qed.
 
+End RelativeProofs.
+
+Section ResetProofs.
+  Context {T P : Type}.
+  Variable zero : T.
+  Variable pos_of : val -> T.
+  Variable kind : dev -> dkind.
+  Variable position : dev -> T.
+  Variable resume : P -> input -> outcome P.
+  Variable view : msg -> rview T.
+  Variable mk : rview T -> msg.
+  Variable elig : dev -> bool.
+  Variable parent : dev -> option dev.
+  Variable coupled : dev -> bool.
+  Variable pseudos : dev -> list dev.
+  Variable comps : T -> list T.
+
+  Notation decide := (rel_decide zero pos_of kind position view mk elig parent coupled pseudos comps).
+  Notation ins := (ins_resume resume decide).
+
   (* ---------------- reset_positions_wrapper *)
   Notation lp := (lp_resume (fun _ : val => false)).
 
   Theorem reset_trace :
     forall p s, plain s = true ->
-      trace (reset_resume zero pos_of kind position resume view mk elig) (reset_init p) (Send VNone :: s)
-      = s2_ref ins ins_store lp (fw_next (reset_plan mk)) (IStart p []) (Send VNone :: s).
+      trace (reset_resume zero pos_of kind position resume view mk elig parent coupled pseudos comps) (reset_init p) (Send VNone :: s)
+      = s2_ref ins ins_store lp (fw_next (reset_plan mk parent coupled)) (IStart p []) (Send VNone :: s).
   Proof.
     intros p s Hp. unfold reset_resume, reset_init, reset_fin_resume, fw_resume.
     etransitivity; [apply d_start_trace; exact Hp|].
@@ -222,25 +265,54 @@ Section RelativeProofs.
   Qed.
 
   (* the plan_mutator layer ended plainly with [st] recorded, and the cleanup's messages are all answered: every
-     recorded device is sent back to its recorded position, in first-touch order, in one group, followed by one
-     wait on that group; then the wrapper ends the way the plan ended *)
+     recorded device whose parent is not a coupled pseudo-positioner parent ([restored]; with ordinary parents or no
+     parents: every recorded device) is sent back to its recorded position, in first-touch order, in one group,
+     followed by one wait on that group; then the wrapper ends the way the plan ended.  (The axes of a coupled
+     pseudo-positioner are carried back by their parent, which is recorded and restored with them.) *)
   Theorem reset_restores_all :
     forall p s ms t st vs rest c,
       plain s = true ->
       split ins ins_store (IStart p []) (Send VNone :: s) = (ms, Some (t, st, map Send vs ++ rest)) ->
-      plain_end t = Some c -> length vs = S (length st) ->
-      trace (reset_resume zero pos_of kind position resume view mk elig) (reset_init p) (Send VNone :: s)
+      plain_end t = Some c -> length vs = S (length (restored parent coupled st)) ->
+      trace (reset_resume zero pos_of kind position resume view mk elig parent coupled pseudos comps) (reset_init p) (Send VNone :: s)
       = map OYield ms
-        ++ map OYield (map (fun kv => mk (RSet (fst kv) (snd kv) G_RESET)) st ++ [mk (RWait G_RESET)])
+        ++ map OYield (map (fun kv => mk (RSet (fst kv) (snd kv) G_RESET)) (restored parent coupled st) ++ [mk (RWait G_RESET)])
         ++ [compl_obs c].
   Proof.
     intros p s ms t st vs rest c Hp HS HE HL.
     rewrite reset_trace by exact Hp. unfold s2_ref. rewrite HS. f_equal.
-    assert (HN : fw_next (reset_plan mk) st t = Some (reset_plan mk st, c)).
+    assert (HN : fw_next (reset_plan mk parent coupled) st t = Some (reset_plan mk parent coupled st, c)).
     { destruct t as [v|e|]; cbn in *; [now inversion HE| |discriminate].
       destruct (is_GeneratorExit e); [discriminate|now inversion HE]. }
     destruct t as [v|e|]; [| |discriminate HE]; rewrite HN;
       (apply (undo_complete (fun _ : val => false) _ None c vs rest); [|now left]);
       now rewrite app_length, map_length, Nat.add_comm.
   Qed.
-End RelativeProofs.
+
+  (* with ordinary parents only (no coupled pseudo-positioner parent) nothing is left out *)
+  Lemma restored_all : (forall p, coupled p = false) -> forall st : @pstore T, restored parent coupled st = st.
+  Proof.
+    intros H st. unfold restored. induction st as [|[k v] r IH]; [reflexivity|]. cbn [filter fst].
+    unfold carried at 1. destruct (parent k) as [p|]; [rewrite (H p)|]; cbn; now rewrite IH.
+  Qed.
+
+  Lemma restored_In :
+    forall (st : @pstore T) d v,
+      In (d, v) (restored parent coupled st) <-> In (d, v) st /\ (forall p, parent d = Some p -> coupled p = false).
+  Proof.
+    intros st d v. unfold restored. rewrite filter_In. cbn [fst]. unfold carried. split.
+    - intros [HI HC]. split; [exact HI|]. intros p Hp. rewrite Hp in HC. now apply negb_true_iff in HC.
+    - intros [HI HC]. split; [exact HI|]. destruct (parent d) as [p|]; [|reflexivity]. now rewrite (HC p eq_refl).
+  Qed.
+End ResetProofs.
+
+Lemma restored_spec :
+  forall (T : Type) (parent : dev -> option dev) (coupled : dev -> bool) (st : @pstore T),
+    (forall d v, In (d, v) (restored parent coupled st) <->
+                 In (d, v) st /\ (forall p, parent d = Some p -> coupled p = false)) /\
+    ((forall p, coupled p = false) -> restored parent coupled st = st).
+Proof.
+  intros T parent coupled st. split.
+  - intros d v. apply restored_In.
+  - intros H. now apply restored_all.
+Qed.
